@@ -101,7 +101,7 @@ def run(ctx):
     n_exh = len(paths)
     paths += ["..", "../..", "/..", "//..", "/../..", "a/../../..", "./../", "..//..//etc/passwd", "/./.", "//", "///",
               "////a", "a/b/../../../c", "\x00", "a\x00/../..", "..\\..\\a", "/" * 300 + "..", "../" * 200 + "x"]
-    paths += gen_random(rng, 40000 if ctx.thorough else 5000)
+    paths += gen_random(rng, 200000 if ctx.thorough else 5000)
 
     reqs, outs = [], []
     for p in paths:
@@ -151,7 +151,7 @@ def run(ctx):
     from pv.core import InfraError
     import socket
 
-    sample = [p for p in paths[n_exh:] if "\x00" not in p][: (600 if ctx.thorough else 150)]
+    sample = [p for p in paths[n_exh:] if "\x00" not in p][: (3000 if ctx.thorough else 150)]
     sample += [paths[k] for k in range(0, n_exh, 97)]
     try:
         with lib_sftploop.Session() as s:
